@@ -759,9 +759,14 @@ func (s *inProcessClientStream) recvMsgLocked(m interface{}, lastMessage bool) e
 			}
 			return internal.TranslateContextError(err)
 		}
+		if s.state == streamStateHeaders {
+			// the server sends its headers before anything else, so whatever
+			// this frame is, the headers are final now (possibly empty) and a
+			// later call to Header must not wait for another frame
+			s.state = streamStateMessages
+		}
 		switch r.kind() {
 		case kindHeaders:
-			s.state = streamStateMessages
 			s.headers = r.headers
 			s.copts.SetHeaders(s.headers)
 		case kindTrailers:
